@@ -13,7 +13,8 @@ EXPLANATION = ("R1 path-sensitive extraction of the envelope decoder: on every s
 TRUSTED = ['tokio mpsc/oneshot channels are FIFO and single-consumer', 'tokio_util Framed calls the decoder on the bytes in order']
 UNDECIDED = ['channel and Framed FIFO behaviour (trusted)', 'cross-talk under IDs wider than 32 bits (`id as i32` truncation)']
 ASSUMPTIONS = []
-SHARED = [('C07', ('B2.reader', 'B7.'), 'R14.framing'), ('C06', ('G1.', 'G2.'), 'R14.framing'), ('C05', ('N1.', 'N2.', 'N3.', 'N4.', 'N5.', 'N8.'), 'R11.ids-unique'), ('C02', ('S13.',), 'R12.id-on-the-wire'), ('C10', ('Q4.entries-only.start', 'Q4.entries-only.collects', 'Q4.entries-only.finish'), 'R13.referrals-of-this-search')]      # routing by ID presupposes that concurrent operations never share an ID and that the ID of an operation the client gave up is not handed out again while its late reply may still arrive (numbering only advances)
+SHARED = [('C07', ('B2.reader', 'B7.'), 'R14.framing'), ('C06', ('G1.', 'G2.'), 'R14.framing'), ('C05', ('N1.', 'N2.', 'N3.', 'N4.', 'N5.', 'N8.'), 'R11.ids-unique'), ('C02', ('S13.',), 'R12.id-on-the-wire'), ('C10', ('Q4.entries-only.start', 'Q4.entries-only.collects', 'Q4.entries-only.finish'), 'R13.referrals-of-this-search'),
+          ('C12', ('O1.scrub-own-id', 'O2.scrub-own-id', 'O3.scrub-key'), 'R15.timeout-disturbs-no-other-operation')]      # routing by ID presupposes that concurrent operations never share an ID and that the ID of an operation the client gave up is not handed out again while its late reply may still arrive (numbering only advances); an expired timeout makes the driver forget exactly the timed-out operation: the scrub names that operation's own ID (not whatever the handle issued before it, which may be a running search) and the scrub arm removes nothing else
 
 RFC4511_SEARCH_RESP = {4: 'SearchItem::Entry', 25: 'SearchItem::Entry', 19: 'SearchItem::Referral', 5: 'SearchItem::Done'}
 
